@@ -205,6 +205,7 @@ struct SeqInfo {
     double ctol = 0;          // constraint tolerance (library's dimensionless f)
     bool hasJt = true;        // translational Jacobi scalars reported
     bool hasJ = true;
+    double cond = 1;          // rounding amplification of an analytic formula (documented where it is set)
 };
 
 static bool finite3(const Vec3& v) { return std::isfinite(v[0]) && std::isfinite(v[1]) && std::isfinite(v[2]); }
@@ -242,15 +243,15 @@ static bool checkSequence(Ctx& c, const Surf& S, const std::vector<Knot>& kn, do
         if (bad >= 0) return false;
     }
     // position / direction error budgets of one step
-    const double posLoc = q.implicit ? q.acc : 64 * EPS * (S.size + L);
-    const double dirLoc = q.implicit ? q.acc : 64 * EPS * (1 + L * S.kmax);
+    const double posLoc = q.implicit ? q.acc : 64 * EPS * (S.size + L) * q.cond;
+    const double dirLoc = q.implicit ? q.acc : 64 * EPS * (1 + L * S.kmax) * q.cond;
     // --- per knot: on surface, unit tangent, tangent in tangent plane
     double wOn = 0, wUnit = 0, wPerp = 0, tolOnMin = 0; int iOn = 0, iPerp = 0, iUnit = 0;
     for (int i = 0; i < N; ++i) {
         const Knot& k = kn[i];
         double on, tolOn;
         if (q.implicit) { on = std::fabs(S.fLib(k.p)); tolOn = q.ctol + 64 * EPS; }            // documented: |f| <= constraintTolerance
-        else { on = std::fabs(S.dist(k.p)); tolOn = 8 * EPS * (N + 16) * (S.size + std::fabs(k.p[2])); }
+        else { on = std::fabs(S.dist(k.p)); tolOn = 8 * EPS * (N + 16) * (S.size + std::fabs(k.p[2])) * q.cond; }
         if (on / tolOn >= wOn) { wOn = on / tolOn; iOn = i; tolOnMin = tolOn; }
         double un = std::fabs(k.t.norm() - 1);
         if (un >= wUnit) { wUnit = un; iUnit = i; }
@@ -344,8 +345,8 @@ static bool checkSequence(Ctx& c, const Surf& S, const std::vector<Knot>& kn, do
 // Tolerances for an end-to-end comparison after nsteps steps of local error <= loc.
 struct EndTol { double p, t, jr, jrd, jt, jtd; };
 static EndTol endTol(const Surf& S, const SeqInfo& q, int nsteps, double L, const PathBound& B, double refErr) {
-    double posLoc = q.implicit ? q.acc : 64 * EPS * (S.size + L);
-    double dirLoc = q.implicit ? q.acc : 64 * EPS * (1 + L * S.kmax);
+    double posLoc = q.implicit ? q.acc : 64 * EPS * (S.size + L) * q.cond;
+    double dirLoc = q.implicit ? q.acc : 64 * EPS * (1 + L * S.kmax) * q.cond;
     double n = 10.0 * nsteps;
     EndTol e;
     e.p = n * (posLoc * (1 + B.JT) + dirLoc * B.JR) + refErr;
@@ -788,9 +789,19 @@ static void runCase(Ctx& c, long idx, Rng& r) {
                     SeqInfo q; q.tag = "two-point-analytic:" + sname; q.hasJt = false;
                     PathBound B; RefState en; double enErr;
                     const double dphi = kind == K_Cylinder ? std::fabs(P[0] * Q[1] - P[1] * Q[0]) / (S.r * S.r) : 1.0;
-                    if (kind == K_Cylinder && dphi < 1e-7 && !std::isfinite(g.getLength())) {
-                        // P and Q on one generator of the cylinder: the helix parametrisation divides by the zero angle
-                        c.viol("nan-for-axial-geodesic:two-point-analytic:cylinder", [&]() { Json j = d2; j.set("what", "calcGeodesicAnalytical returns NaN length/frames for two points on the same generator (valid input, no failure reported)").set("dphi", dphi); return j; }());
+                    // The cylinder's two-point formula is parametrised by the swept angle (z = R m (phi-phiP) + c with slope
+                    // m = dz/(R angle)): rounding is amplified by ~ phi/angle, and for P, Q on one generator (angle = 0, a
+                    // perfectly valid input) it divides by zero. Judged with that conditioning; the degenerate case is
+                    // attributed to a single key.
+                    if (kind == K_Cylinder) q.cond = 1 + 8 / std::max(dphi, 1e-300);
+                    if (kind == K_Cylinder && dphi < 1e-6) {
+                        bool fin = std::isfinite(g.getLength()) && g.getNumPoints() >= 2;
+                        for (auto& kk : kn) fin = fin && finite3(kk.p) && finite3(kk.t) && std::isfinite(kk.s);
+                        bool good = fin && std::fabs(g.getLength() - sQ) <= 1e-9 * (S.size + sQ) && (g.getPointP() - P).norm() + (g.getPointQ() - Q).norm() <= 1e-9 * (S.size + sQ);
+                        // on a generator the geodesic is (to 1e-6 relative) the straight segment PQ traversed at unit speed
+                        if (good) for (auto& kk : kn) if ((kk.p - (P + (Q - P) * (kk.s / sQ))).norm() > 1e-5 * (S.size + sQ) || (kk.t - (Q - P) / (Q - P).norm()).norm() > 1e-5) good = false;
+                        if (!good) c.viol("axial-geodesic-degenerate:two-point-analytic:cylinder", [&]() { Json j = d2; j.set("what", "calcGeodesicAnalytical returns NaN or garbage (length/frames) for two points on (nearly) the same generator of the cylinder: valid input, no failure reported").set("dphi", dphi).set("length", g.getLength()).set("expected", sQ); return j; }());
+                        else c.obs("two-point-analytic-cylinder-axial-ok");
                     } else if (c.require("geodesic-arrays-same-size:" + q.tag, sizesOk, W2("Geodesic arrays have different lengths", 0)) &&
                         checkSequence(c, S, kn, g.getLength(), q, &B, &en, &enErr)) {
                         checkGeodesicObject(c, S, g, q.tag, true);
